@@ -72,8 +72,31 @@ def c01_oracle(full, io, b):
     return out
 
 
+NASTY = ["a b", "é", "\x00", "\x7f", "\"<>\\^`{|}", "%zz", "%", "\udc80", "a\nb", "x\n", "\U0001f600", "a%2", "%c3%a9", "[x]", "a#b?c", "k=v&w", "\u2028"]
+
+
 def c01_streams(rng, tier, budget):
     yield "quoters", quoter_stream(quoter_strings(rng, tier, budget), unquoters=[])
+    # deterministic matrix: every entry point that accepts text × texts that must not survive raw × the contexts in which the
+    # entry point takes a different route (user present or not, password present or not, authority present or not)
+    st = Stream()
+    for t in NASTY:
+        e = enc(t)
+        for kw in (dict(user=t), dict(password=t), dict(user="u", password=t), dict(user=t, password=t), dict(path="/" + t), dict(fragment=t),
+                   dict(query_string="a=" + t), dict(query="M" + enc("k") + "=s" + e), dict(query="M" + e + "=s" + enc("v"))):
+            st.obs_all(st.build(scheme="http", host="h", **kw), C01_OBS)
+        st.obs_all(st.build(path=t, fragment=t), C01_OBS)
+        for bs in ("http://h/p/q.txt?a=1#f", "http://u@h/", "http://u:p@h/x", "http://:p@h/", "/rel/path", "x:opaque"):
+            h = st.new(bs)
+            for m in (("with_user", e), ("with_password", e), ("with_fragment", e), ("with_path", enc("/" + t), "F", "F", "F"), ("with_path", e, "F", "T", "T"),
+                      ("with_name", e, "F", "F"), ("with_suffix", enc("." + t), "F", "F"), ("truediv", e), ("joinpath", "F", e, e),
+                      ("with_query", "S" + enc("a=" + t)), ("with_query", "M" + e + "=s" + e), ("extend_query", "P" + e + "=s" + e),
+                      ("update_query", "K" + enc("k") + "=s" + e), ("with_query", "S" + e)):
+                st.obs_all(st.mod(h, *m), C01_OBS)
+            st.obs_all(st.join(h, st.new(t)), C01_OBS)
+        for pre in ("http://h/", "http://h/?", "http://h/#", "http://", "http://u:", "", "x:"):
+            st.obs_all(st.new(pre + t + ("@h/" if pre.endswith(("//", "u:")) else "")), C01_OBS)
+    yield "entry-point-matrix", st
     n = int((250 if tier == "quick" else 4000) * budget)
     yield "urls", general_stream(rng, n, C01_OBS, enc_frac=0.0)
 
